@@ -18,7 +18,7 @@ def mc_runs(ctx, which):
     if ctx.quick():
         runs = [("small", dict(BASE, Limits="<- LimSmall", MaxCid=3)), ("none", dict(BASE, Limits="<- LimNone", MaxCid=3)),
                 ("asym", dict(BASE, Limits="<- LimAsym", MaxCid=3)),
-                ("two2", dict(TWO, Limits="<- LimSmall", MaxCid=2)), ("two2n", dict(TWO, Limits="<- LimNone", MaxCid=2))]
+                ("two2", dict(TWO, Limits="<- LimTwo", MaxCid=2)), ("two2n", dict(TWO, Limits="<- LimNone", MaxCid=2))]
     else:
         runs = [("small4", dict(BASE, Limits="<- LimSmall", MaxCid=4)),
                 ("mixed", dict(BASE, Limits="<- LimMixed", MaxCid=3, AddrsOf="<- AddrsDef")),
@@ -43,7 +43,7 @@ def generate(ctx):
     gl = ["SPECIFICATION Spec", "VIEW GenView", "ACTION_CONSTRAINT Emit", "CHECK_DEADLOCK FALSE"]
     # (limit set, connection ids, two transports?)
     sets = ([("LimSmall", 2, False), ("LimNone", 2, False), ("LimTwo", 2, False), ("LimAsym", 2, False), ("LimLeak", 3, False),
-             ("LimSmall", 3, False), ("LimSmall", 2, True), ("LimNone", 2, True)]
+             ("LimSmall", 3, False), ("LimTwo", 2, True), ("LimNone", 2, True)]
             if ctx.quick() else
             [("LimSmall", 3, False), ("LimLeak", 3, False), ("LimAsym", 3, False), ("LimNone", 2, False), ("LimTwo", 2, False),
              ("LimSmall", 2, True), ("LimNone", 2, True), ("LimTwo", 2, True)])
@@ -256,7 +256,9 @@ def selftest(ctx, pid):
     # negative models
     negs = [
         ("limit-off-by-one", "Full(s, max) == max # NoLimit /\\ Cardinality(s) >= max", "Full(s, max) == max # NoLimit /\\ Cardinality(s) > max"),
-        ("forget-pending-remove-on-open-failure", "     /\\ pend' = pend \\ {c}\n     /\\ tx' = [tx EXCEPT ![c] = \"failed\"]\n     /\\ UNCHANGED <<cpeer, cdir, caddrs, limIn, limOut, next, known, kf>>\n     /\\ Handle([a |-> \"open_fail\"", "     /\\ pend' = pend\n     /\\ tx' = [tx EXCEPT ![c] = \"failed\"]\n     /\\ UNCHANGED <<cpeer, cdir, caddrs, limIn, limOut, next, known, kf>>\n     /\\ Handle([a |-> \"open_fail\""),
+        ("forget-pending-remove-on-open-failure", "             /\\ pend' = pend \\ {c}\n             /\\ tx' = [tx EXCEPT ![c] = \"failed\"]\n             /\\ Handle([a |-> \"open_fail\"", "             /\\ pend' = pend\n             /\\ tx' = [tx EXCEPT ![c] = \"failed\"]\n             /\\ Handle([a |-> \"open_fail\""),
+        ("two-transports:every-open-failure-reported", "             /\\ Handle([a |-> \"open_fail\", c |-> c, p |-> p, tr |-> tr], <<>>, <<>>, \"none\")", "             /\\ Handle([a |-> \"open_fail\", c |-> c, p |-> p, tr |-> tr], <<>>, <<[k |-> \"open_failure\", cid |-> c, addrs |-> OfTr(caddrs[c], tr)]>>, \"none\")"),
+        ("two-transports:second-open-reuses-no-attempt", "                 /\\ Handle(stim, PerTr(trs, LAMBDA tr : [c |-> \"open\", cid |-> c, addrs |-> OfTr(addrs, tr), tr |-> tr]), <<>>, \"ok\")", "                 /\\ Handle(stim, PerTr(trs, LAMBDA tr : [c |-> \"open\", cid |-> c, addrs |-> OfTr(addrs, tr), tr |-> tr]) \\o (IF Cardinality(trs) = 2 THEN <<[c |-> \"open\", cid |-> c, addrs |-> addrs, tr |-> \"t\"]>> ELSE <<>>), <<>>, \"ok\")"),
         ("third-connection-accepted", "  ELSE IF s.k = \"conn\" THEN [acc |-> FALSE, st |-> s, cancel |-> None]", "  ELSE IF s.k = \"conn\" THEN [acc |-> TRUE, st |-> s, cancel |-> None]"),
         ("dial-failure-not-reported", "             /\\ Handle(stim, <<>>, <<[k |-> \"dial_failure\", cid |-> c, addrs |-> caddrs[c]],", "             /\\ Handle(stim, <<>>, <<"),
     ]
@@ -268,11 +270,12 @@ def selftest(ctx, pid):
             log("selftest negative %s: pattern not found (spec changed?)" % name)
             ok = False
             continue
-        d = ctx.path("neg_" + name)
+        d = ctx.path("neg_" + name.replace(":", "_"))
         os.makedirs(d, exist_ok=True)
         shutil.copy(os.path.join(SPEC, "ConnMgr.tla"), d)
         open(os.path.join(d, "ConnMgrMC.tla"), "w").write(src.replace(a, b))
-        cfg = write_cfg(ctx, "neg_%s.cfg" % name, dict(BASE, Limits="<- LimNone" if name.startswith("third") else "<- LimSmall", MaxCid=3), ["SPECIFICATION Spec"] + MC_INV)
+        cfg = write_cfg(ctx, "neg_%s.cfg" % name.replace(":", "_"), dict(TWO if name.startswith("two-transports") else BASE, Limits="<- LimNone" if name.startswith(("third", "two-transports")) else "<- LimSmall",
+                                                                         MaxCid=2 if name.startswith("two-transports") else 3), ["SPECIFICATION Spec"] + MC_INV)
         r = tlc_mc(ctx, os.path.join(d, "ConnMgrMC.tla"), cfg, workers=8, expect_violation=True, timeout=900)
         viol = "is violated" in r["out"]
         log("selftest negative %-40s -> %s" % (name, "violation found" if viol else "NO VIOLATION"))
